@@ -206,6 +206,29 @@ def run(tier):
             disagreements.append((src, m, r[1]))
     if isrcs:
         chk.sample({'source': isrcs[0], 'real': ires[0][1] if ires[0][0] == 'ok' else list(ires[0][:3]), 'model': imodel[0]})
+    # ---- an interpolated string prints exactly like the plain string with the substituted text: also when the other kind of quote stands
+    # ---- alone between interpolations, with commas inside and outside the string, in every output mode
+    qcases = []
+    for q, o in (('"', "'"), ("'", '"')):
+        for tmpl in ('%(q)s%(o)s@{a},@{b}%(o)s%(q)s', '%(q)s@{a}%(o)s@{b}%(q)s, "x", y', '%(q)s%(o)s@{a}%(o)s,%(o)s@{b}%(o)s%(q)s, z', '%(q)s@{a}%(o)s%(q)s, w, v',
+                     '%(q)s%(o)s,@{a}%(q)s', '%(q)s@{a},@{b}%(o)s@{a}%(q)s, k', '%(q)s%(o)s@{a}%(o)s@{b}%(o)s%(q)s %(q)sp,q%(q)s, r', '%(q)sa,b%(o)s@{a}%(o)sc,d%(q)s, e,f'):
+            lit = tmpl % {'q': q, 'o': o}
+            if q == "'":
+                lit = lit.replace('"x"', "'x'")
+            plain = lit.replace('@{a}', 'tom').replace('@{b}', 'ann')
+            for prop in ('quotes', 'font-family', 'content'):
+                for opts in (dict(minify=False), dict(minify=True), dict(minify=False, tabs=True)):
+                    qcases.append(('@a: tom;\n@b: ann;\n.i{%s: %s}' % (prop, lit), '.i{%s: %s}' % (prop, plain), opts))
+    qres = C.compile_many([(a_, o_) for a_, _b, o_ in qcases] + [(b_, o_) for _a, b_, o_ in qcases])
+    for k, (a_, b_, o_) in enumerate(qcases):
+        ra, rb = qres[k], qres[len(qcases) + k]
+        chk.count(('quote-mix', a_, json.dumps(o_, sort_keys=True)), nontrivial=True)
+        if rb[0] != 'ok':
+            continue
+        if ra[0] != 'ok' or ra[1] != rb[1]:
+            chk.violation({'kind': 'interp-vs-plain', 'source': a_, 'options': o_, 'expected': rb[1], 'actual': ra[1] if ra[0] == 'ok' else list(ra[:3]),
+                           'plain_source': b_, 'problem': 'an interpolated string must print like the plain string with the substituted text'})
+            break
     # ---- selector interpolation (model: Lessm.Vars.resolveSel via c03.run)
     scases = []
     for k in range(120 if tier == 'quick' else 2000):
